@@ -1,0 +1,71 @@
+//go:build verif
+
+// Contracts for the verification machinery in /verif (govc). Comment-only.
+
+package lossless
+
+// ---- encoder- and decoder-side pixel arithmetic equal the specification (C01 C03) ----
+
+//@ lemma addPixelsIsSpec(a uint32, b uint32)
+//@   property C01 C03
+//@   ensures addPixels(a, b) == dsp.SpecAddPixels(a, b)
+//
+//@ lemma subPixelsIsSpec(a uint32, b uint32)
+//@   property C01
+//@   ensures subPixels(a, b) == dsp.SpecSubPixels(a, b)
+//
+//@ lemma subAddInverse(a uint32, b uint32)
+//@   property C01
+//@   ensures addPixels(subPixels(a, b), b) == a
+//
+//@ lemma average2IsSpec(a uint32, b uint32)
+//@   property C01 C03
+//@   ensures average2(a, b) == dsp.SpecAverage2(a, b)
+//@   ensures avg2(a, b) == dsp.SpecAverage2(a, b)
+//
+//@ lemma selectDecIsSpec(l uint32, t uint32, tl uint32)
+//@   property C01 C03
+//@   ensures selectPredictor(l, t, tl) == dsp.SpecSelect(l, t, tl)
+//
+//@ lemma selectEncIsDec(l uint32, t uint32, tl uint32)
+//@   property C01
+//@   ensures selectPred(l, t, tl) == selectPredictor(l, t, tl)
+//
+//@ lemma clampFullIsSpec(a uint32, b uint32, c uint32)
+//@   property C01 C03
+//@   ensures clampedAddSubtractFull(a, b, c) == dsp.SpecClampAddSubtractFull(a, b, c)
+//@   ensures clampAddSubFull(a, b, c) == dsp.SpecClampAddSubtractFull(a, b, c)
+//
+//@ lemma clampHalfIsSpec(a uint32, c uint32)
+//@   property C01 C03
+//@   ensures clampedAddSubtractHalf(a, c) == dsp.SpecClampAddSubtractHalf(a, c)
+//@   ensures clampAddSubHalf(a, c) == dsp.SpecClampAddSubtractHalf(a, c)
+//
+// predictPixel dispatches to the mode the specification numbers 0..13
+// (stated over the encoder's own helpers, each of which is tied to the
+// specification above).
+//@ lemma predictPixelModes(l uint32, t uint32, tr uint32, tl uint32)
+//@   property C01
+//@   ensures predictPixel(0, l, t, tr, tl) == 0xff000000
+//@   ensures predictPixel(1, l, t, tr, tl) == l && predictPixel(2, l, t, tr, tl) == t
+//@   ensures predictPixel(3, l, t, tr, tl) == tr && predictPixel(4, l, t, tr, tl) == tl
+//@   ensures predictPixel(5, l, t, tr, tl) == avg2(avg2(l, tr), t)
+//@   ensures predictPixel(6, l, t, tr, tl) == avg2(l, tl)
+//@   ensures predictPixel(7, l, t, tr, tl) == avg2(l, t)
+//@   ensures predictPixel(8, l, t, tr, tl) == avg2(tl, t)
+//@   ensures predictPixel(9, l, t, tr, tl) == avg2(t, tr)
+//@   ensures predictPixel(10, l, t, tr, tl) == avg2(avg2(l, tl), avg2(t, tr))
+//@   ensures predictPixel(11, l, t, tr, tl) == selectPred(l, t, tl)
+//@   ensures predictPixel(12, l, t, tr, tl) == clampAddSubFull(l, t, tl)
+//@   ensures predictPixel(13, l, t, tr, tl) == clampAddSubHalf(avg2(l, t), tl)
+//
+//@ lemma colorTransformPixelIsSpec(m Multipliers, p uint32)
+//@   property C01
+//@   ensures applyColorTransformPixel(m, p) == dsp.SpecColorForward(uint8(m.GreenToRed), uint8(m.GreenToBlue), uint8(m.RedToBlue), p)
+//
+//@ lemma packMultipliersLayout(m Multipliers)
+//@   property C01
+//@   ensures uint8(packMultipliers(m)) == uint8(m.GreenToRed)
+//@   ensures uint8(packMultipliers(m) >> 8) == uint8(m.GreenToBlue)
+//@   ensures uint8(packMultipliers(m) >> 16) == uint8(m.RedToBlue)
+//@   ensures packMultipliers(m) >> 24 == 0
